@@ -221,6 +221,10 @@ def queryObs (st : St) (c : Cmd) : St × Verdict :=
     | "post" => (st, .exact (postObs st s c))
     | "dict" => (st, .exact (dictObs st s c))
     | "dictpair" => (st, .exact (dictPairObs st s c))
+    | "header" =>
+      -- opened segments report their file's footer; segments in memory have none
+      if (st.refs.get? (c.arg 1)).isSome then (st, .exact s!"mode={s.chunkMode} ver=16 docs={s.numDocs} crcok=1")
+      else (st, .exact "inmem")
     | "byteswritten" =>
       -- a statistic of the build: nothing was written for an empty batch, whatever was built before
       if s.numDocs = 0 ∧ (st.segBatch.get? (c.arg 1)).isSome then (st, .exact "0") else (st, .pred (fun _ => true) "any")
